@@ -74,7 +74,7 @@ def multi_qubit(name, target=None):
     raise KeyError(name)
 
 
-def subspace_matrix(u_full, heralds, n_modes, n_qubits, qubit_modes=None, accept=None):
+def subspace_matrix(u_full, heralds, n_modes, n_qubits, qubit_modes=None, accept=None, leak_sample=None, rng=None):
     """Amplitudes of a circuit between dual-rail basis inputs and *all* visible outputs with
     n_qubits photons (heralds satisfied, loss modes in vacuum).
 
@@ -101,6 +101,10 @@ def subspace_matrix(u_full, heralds, n_modes, n_qubits, qubit_modes=None, accept
     m = np.zeros((dim, dim), dtype=complex)
     leak = []
     outs = boson.fock(k, n_qubits)
+    if leak_sample is not None and len(outs) > leak_sample + len(qocc):
+        non_q = [o for o in outs if o not in qocc]
+        sel = rng.choice(len(non_q), size=leak_sample, replace=False)
+        outs = list(qocc) + [non_q[int(j)] for j in sel]
     for col, bits in enumerate(bs):
         cin = [(g, x) for g, x in zip(vis_in, occ_of(bits)) if x] + hin
         for o in outs:
